@@ -337,7 +337,7 @@ impl World {
                     self.model.clear_slot(out);
                     self.real.clear(out);
                 } else {
-                    self.model.set_slot(out, MSlot::Node(m));
+                    self.set_node_slot(out, m);
                 }
             }
             (None, None) => {
@@ -361,9 +361,38 @@ impl World {
         }
     }
 
-    /// children as the DOM view of this document presents them (raw view: the list itself)
+    /// bind a slot to the model node the returned handle denotes; a merged text handle denotes a run
+    fn set_node_slot(&mut self, out: S, m: Mid) {
+        let merged = matches!(self.real.node(out), Some((XmlNode::ExpandedText(_), _)));
+        if merged {
+            let run = self.model.run_of(m).unwrap_or_else(|| vec![m]);
+            self.model.set_slot(out, MSlot::Run(run));
+            self.model.born.insert(out, self.model.gen);
+        } else {
+            self.model.set_slot(out, MSlot::Node(m));
+        }
+    }
+
+    /// which handles of a snapshot slot are merged text nodes
+    fn vec_flags(&self, out: S) -> Vec<bool> {
+        match self.real.slots.get(out).and_then(|v| v.as_ref()) {
+            Some(RSlot::Vec { nodes, .. }) => nodes.iter().map(|n| matches!(n, XmlNode::ExpandedText(_))).collect(),
+            _ => vec![],
+        }
+    }
+
+    /// the model node a navigation call is made on: a node, or the head of a still intact run
+    fn nav_node(&self, s: S) -> Option<Mid> {
+        match self.model.slot(s) {
+            Some(MSlot::Node(m)) => Some(*m),
+            Some(MSlot::Run(r)) if self.model.run_intact(r) => Some(r[0]),
+            _ => None,
+        }
+    }
+
+    /// children as the DOM view of this document presents them
     fn view_children(&self, m: Mid) -> Vec<Mid> {
-        self.model.nodes[m].children.clone()
+        self.model.view_heads(m)
     }
 
     fn predict_nav(&self, m: Mid, which: NavKind) -> Option<Option<Mid>> {
@@ -381,6 +410,12 @@ impl World {
             NavKind::Prev | NavKind::Next => {
                 if n.kind == Kind::Attr {
                     return Some(None);
+                }
+                if let Some(run) = self.model.run_of(m) {
+                    if run[0] != m {
+                        // a raw piece inside a merged run is not a node of the view: not judged
+                        return None;
+                    }
                 }
                 match n.parent {
                     None => None,
@@ -545,6 +580,7 @@ impl World {
                     }
                     rep.success_mutation = true;
                     self.successes += 1;
+                    self.model.gen += 1;
                 }
                 _ => {
                     // accessors, queries, slot management: nothing may change
@@ -652,7 +688,7 @@ impl World {
             Op::InsertBefore { recv, new, refc, out } => {
                 let r = self.model.node_slot(*recv).unwrap();
                 let n = self.model.node_slot(*new).unwrap();
-                let rc = refc.map(|s| self.model.node_slot(s).unwrap());
+                let rc = refc.map(|s| self.model.arg_head(s).unwrap());
                 if self.model.nodes[n].kind == Kind::Fragment {
                     self.model.set_slot(*out, MSlot::Node(n));
                     return;
@@ -689,6 +725,23 @@ impl World {
             Op::ReplaceChild { recv, new, old, out } => {
                 let r = self.model.node_slot(*recv).unwrap();
                 let n = self.model.node_slot(*new).unwrap();
+                if let Some(MSlot::Run(run)) = self.model.slot(*old).cloned() {
+                    // the merged text node stands for all of its pieces
+                    self.model.apply_insert(r, n, Some(run[0]));
+                    for p in &run {
+                        self.model.apply_remove(r, *p);
+                    }
+                    if rkey != self.model.key(run[0]) {
+                        fails.push(Fail::new("C13", "return-value", format!("replace_child returned {:?}, DOM Level 1 says the old child {:?}", rkey, self.model.key(run[0]))));
+                    }
+                    // the merged handles (argument and result) now stand for detached pieces: drop them
+                    self.model.clear_slot(*out);
+                    self.real.clear(*out);
+                    self.model.clear_slot(*old);
+                    self.real.clear(*old);
+                    rep.probes.push("merged_text_replaced");
+                    return;
+                }
                 let o = self.model.node_slot(*old).unwrap();
                 if plan.adopt.is_empty() {
                     self.model.apply_replace(r, n, o);
@@ -697,6 +750,23 @@ impl World {
             }
             Op::RemoveChild { recv, old, out } => {
                 let r = self.model.node_slot(*recv).unwrap();
+                if let Some(MSlot::Run(run)) = self.model.slot(*old).cloned() {
+                    for p in &run {
+                        self.model.apply_remove(r, *p);
+                    }
+                    if rkey != self.model.key(run[0]) {
+                        fails.push(Fail::new("C13", "return-value", format!("remove_child returned {:?}, DOM Level 1 says the old child {:?}", rkey, self.model.key(run[0]))));
+                    }
+                    // the merged handles (argument and result) now stand for detached pieces: drop them
+                    self.model.clear_slot(*out);
+                    self.real.clear(*out);
+                    self.model.clear_slot(*old);
+                    self.real.clear(*old);
+                    if run.len() > 1 {
+                        rep.probes.push("merged_text_of_several_pieces_removed");
+                    }
+                    return;
+                }
                 let o = self.model.node_slot(*old).unwrap();
                 self.model.apply_remove(r, o);
                 self.bind_out(*out, rkey, Some(o), "remove_child", "C13", fails);
@@ -908,8 +978,11 @@ impl World {
                 }
             }
             Op::Substring { node, off, cnt } => {
-                let m = self.model.node_slot(*node).unwrap();
-                let d = &self.model.nodes[m].data;
+                let d = match self.model.slot(*node) {
+                    Some(MSlot::Run(r)) => self.model.run_data(r),
+                    _ => self.model.nodes[self.model.node_slot(*node).unwrap()].data.clone(),
+                };
+                let d = &d;
                 let len = chars_len(d);
                 let want = char_slice(d, *off, off.saturating_add(*cnt).min(len));
                 if let Ret::Str(g) = ret {
@@ -967,7 +1040,14 @@ impl World {
                 }
             }
             Op::Nav { node, which, out } => {
-                let m = self.model.node_slot(*node).unwrap();
+                let m = match self.nav_node(*node) {
+                    Some(m) => m,
+                    None => {
+                        self.model.clear_slot(*out);
+                        self.real.clear(*out);
+                        return;
+                    }
+                };
                 match self.predict_nav(m, *which) {
                     Some(exp) => {
                         let mut f = vec![];
@@ -984,7 +1064,14 @@ impl World {
                 }
             }
             Op::ChildIter { node, out } => {
-                let m = self.model.node_slot(*node).unwrap();
+                let m = match self.model.node_slot(*node) {
+                    Some(m) => m,
+                    None => {
+                        self.model.clear_slot(*out);
+                        self.real.clear(*out);
+                        return;
+                    }
+                };
                 let exp = self.view_children(m);
                 if let Ret::Nodes(keys) = ret {
                     let got: Vec<Option<Mid>> = keys.iter().map(|k| self.model.mid_of(*k)).collect();
@@ -994,12 +1081,21 @@ impl World {
                         self.model.clear_slot(*out);
                         self.real.clear(*out);
                     } else {
-                        self.model.set_slot(*out, MSlot::Vec(exp));
+                        let flags = self.vec_flags(*out);
+                        self.model.set_slot(*out, MSlot::Vec(exp, flags));
+                        self.model.born.insert(*out, self.model.gen);
                     }
                 }
             }
             Op::ByTag { node, name, out } => {
-                let m = self.model.node_slot(*node).unwrap();
+                let m = match self.model.node_slot(*node) {
+                    Some(m) => m,
+                    None => {
+                        self.model.clear_slot(*out);
+                        self.real.clear(*out);
+                        return;
+                    }
+                };
                 let mut exp = vec![];
                 self.collect_by_tag(m, name, true, &mut exp);
                 if let Ret::Nodes(keys) = ret {
@@ -1010,16 +1106,32 @@ impl World {
                         self.model.clear_slot(*out);
                         self.real.clear(*out);
                     } else {
-                        self.model.set_slot(*out, MSlot::Vec(exp));
+                        let flags = self.vec_flags(*out);
+                        self.model.set_slot(*out, MSlot::Vec(exp, flags));
+                        self.model.born.insert(*out, self.model.gen);
                     }
                 }
             }
             Op::ChildList { node, out } => {
-                let m = self.model.node_slot(*node).unwrap();
+                let m = match self.model.node_slot(*node) {
+                    Some(m) => m,
+                    None => {
+                        self.model.clear_slot(*out);
+                        self.real.clear(*out);
+                        return;
+                    }
+                };
                 self.model.set_slot(*out, MSlot::List(m));
             }
             Op::AttrMap { node, out } => {
-                let m = self.model.node_slot(*node).unwrap();
+                let m = match self.model.node_slot(*node) {
+                    Some(m) => m,
+                    None => {
+                        self.model.clear_slot(*out);
+                        self.real.clear(*out);
+                        return;
+                    }
+                };
                 if self.model.nodes[m].kind == Kind::Element {
                     self.model.set_slot(*out, MSlot::Map(m));
                 } else {
@@ -1041,12 +1153,18 @@ impl World {
                 }
             }
             Op::VecItem { vec, idx, out } => {
-                let v = match self.model.slot(*vec) {
-                    Some(MSlot::Vec(v)) => v.clone(),
+                let (v, merged) = match self.model.slot(*vec) {
+                    Some(MSlot::Vec(v, f)) => (v.clone(), f.get(*idx).cloned().unwrap_or(false)),
                     _ => return,
                 };
+                if merged && self.model.born.get(vec).cloned() != Some(self.model.gen) {
+                    // a merged text handle out of an old snapshot: not judged
+                    self.model.clear_slot(*out);
+                    self.real.clear(*out);
+                    return;
+                }
                 match (v.get(*idx), rkey) {
-                    (Some(m), Some(_)) => self.model.set_slot(*out, MSlot::Node(*m)),
+                    (Some(m), Some(_)) => self.set_node_slot(*out, *m),
                     _ => {
                         self.model.clear_slot(*out);
                         self.real.clear(*out);
@@ -1078,7 +1196,14 @@ impl World {
                 }
             }
             Op::GetAttrNode { el, name, out } => {
-                let e = self.model.node_slot(*el).unwrap();
+                let e = match self.model.node_slot(*el) {
+                    Some(e) => e,
+                    None => {
+                        self.model.clear_slot(*out);
+                        self.real.clear(*out);
+                        return;
+                    }
+                };
                 let exp = self.model.find_attr(e, name);
                 let mut f = vec![];
                 self.bind_out(*out, rkey, exp, "get_attribute_node", "C12", &mut f);
@@ -1159,7 +1284,9 @@ impl World {
                     QVal::Nodes(keys) => {
                         let mids: Vec<Mid> = keys.iter().filter_map(|k| self.model.mid_of(*k)).collect();
                         if mids.len() == keys.len() {
-                            self.model.set_slot(*out, MSlot::Vec(mids));
+                            let flags = self.vec_flags(*out);
+                            self.model.set_slot(*out, MSlot::Vec(mids, flags));
+                            self.model.born.insert(*out, self.model.gen);
                         } else {
                             // result contains nodes the model does not track (namespace nodes, merged text)
                             self.model.clear_slot(*out);
@@ -1256,10 +1383,10 @@ impl World {
         if self.successes >= 3 {
             rep.probes.push("recovered_after_3_edits");
         }
-        if with_queries && !(expanded || self.model.text_normal(doc)) {
+        if with_queries && !self.model.text_normal(doc) {
             rep.probes.push("differential_queries_skipped_adjacent_or_empty_text");
         }
-        if with_queries && (expanded || self.model.text_normal(doc)) {
+        if with_queries && self.model.text_normal(doc) {
             let ns = self.cfg.diff_ns.clone();
             for q in self.cfg.diff_pool.clone() {
                 let mut c1 = make_ctx(&ns);
